@@ -21,6 +21,17 @@ func ZZLzcnt() {
 	rt.Assert("lzcnt-eq-spec", got == clzSpec(x))
 }
 
+// ZZLzcntPortable: the portable routine (re-emitted from metrics/lzcnt.go under another name,
+// because its build constraint excludes it on amd64) equals the specification, hence the
+// assembly routine, on every input.
+func ZZLzcntPortable() {
+	x := rt.U64("x")
+	got := zzLzcntPortable(x)
+	rt.Reach("lzcnt")
+	rt.Assert("lzcnt-portable-eq-spec", got == clzSpec(x))
+	rt.Assert("lzcnt-portable-eq-asm", got == lzcnt(x))
+}
+
 // ZZBucketBound: the bucket index is in range and the bucket's upper bound is never below
 // the value, for every value up to 2^63-1.
 func ZZBucketBound() {
@@ -30,18 +41,6 @@ func ZZBucketBound() {
 	rt.Reach("bucket")
 	rt.Assert("bucket-in-range", b < numAtlasBuckets)
 	rt.Assert("bucket-upper-bound", uint64(bucketValues[b]) >= n)
-}
-
-// ZZBucketTight: the value is above the previous bucket's bound (the bucket is the smallest
-// one that fits) — makes "upper bound" non-vacuous against "always the last bucket".
-func ZZBucketTight() {
-	n := rt.U64("n")
-	rt.Assume(n <= 1<<63-1)
-	rt.Assume(n > 1)
-	b := getBucket(n)
-	rt.Reach("bucket")
-	rt.Assume(b > 0)
-	rt.Assert("bucket-tight", uint64(bucketValues[b-1]) < n)
 }
 
 // ZZBucketMonotone: successor form of monotonicity.
